@@ -20,6 +20,56 @@ CLAIMED = {
         "adversarial phase and healed in the fair phase.",
         "DESIGN.md 7 C01",
     ),
+    "C02": (
+        "exploration",
+        "deterministic simulation with fault injection: every emitted packet re-protected by an independent RFC "
+        "9001/9369 stack; seeded bit/byte alterations delivered before the genuine packet; key-holding forger for "
+        "packet-number lengths; exhaustive single-bit/byte sweep of one packet per run in the thorough tier",
+        "Round trip: every packet of every run (3 suites, 2 versions, key updates) is opened and re-protected by the "
+        "independent stack and must match bit for bit. Alterations: corrupted copies of packets (incl. Retry) are "
+        "delivered in every connection state and must leave events, handshake progress, delivered data and closing "
+        "state unchanged, then the genuine packet flows and the run must still deliver everything. Packet-number "
+        "lengths: forged valid packets with jumps across every window boundary in all four lengths must be accepted "
+        "exactly when RFC 9000 A.3 decodes them.",
+        "Trusted: wire/ (validated against RFC 9001/9369 vectors), cryptography. The no-op comparison reads the "
+        "connection internals the property's mechanism names. Transient rejection of one genuine packet would be "
+        "masked by retransmission.",
+        "DESIGN.md 7 C02",
+    ),
+    "C05": (
+        "exploration",
+        "deterministic simulation with fault injection: hostile datagrams (random, mutated, coalesced, forged frames "
+        "from a grammar under genuine keys, rewritten CRYPTO) injected at seeded points of lossy runs",
+        "Hostile datagrams of five kinds are injected into lossy client/server runs in every connection state; the "
+        "oracle is that no exception leaves the five API entry points until ConnectionTerminated is popped, with the "
+        "driver continuing to pump timers so closes complete.",
+        "Trusted: wire/, harness. Hostile TLS is produced by rewriting genuine CRYPTO payloads with the keys.",
+        "DESIGN.md 7 C05",
+    ),
+    "C11": (
+        "fault_enumeration",
+        "scripted key-holding TLS 1.3 adversary (independent implementation): complete state x message-type table "
+        "and enumeration of illegal server/client flight orderings against the real tls.Context",
+        "All 13 states x 12 message types are fed to fresh copies of real handshake situations; every ordering, "
+        "omission and repetition of the server flight up to length 6 (all 19,531 in thorough; all up to 4 plus a sample "
+        "in quick) and of the client flight is played by an adversary that recomputes CertificateVerify and Finished "
+        "over the transcript it actually sent; key-release callbacks are recorded against verified messages.",
+        "Trusted: tls13/ (independent key schedule, validated against RFC 8448), cryptography. The "
+        "CLIENT_HANDSHAKE_START row is judged differentially (any input there behaves like the documented b'').",
+        "DESIGN.md 7 C11",
+    ),
+    "C19": (
+        "exploration",
+        "deterministic simulation: virtual-time asyncio event loop (BaseEventLoop subclass) with an in-memory lossy "
+        "network, seeded callback scheduling, real serve()/connect()/QuicServer/QuicConnectionProtocol",
+        "Real asyncio adapter code runs on a simulated loop whose timers, I/O callback ordering, callback durations "
+        "and datagram fates are decided by the seed; stream bytes are compared end to end, every waiter must finish "
+        "exactly once, the loop exception handler must stay silent, and the server routing table is checked against "
+        "issued/retired connection IDs at every loop iteration; Retry tokens are tracked per address.",
+        "Trusted: SimLoop models selector-style datagram transports on one thread; uvloop, threads and socket errors "
+        "are not modelled.",
+        "DESIGN.md 7 C19",
+    ),
     "C06": (
         "exploration",
         "deterministic simulation: seeded schedules with tiny peer limits; independent wire decoder judges every "
